@@ -3,24 +3,37 @@
    NEW_CONNECTION_ID frames carry consecutive sequence numbers, pairwise distinct ids and stateless-reset
    tokens, retire_prior_to <= sequence number; the ids issued and not yet retired (by the peer, or requested to
    be retired through retire_prior_to) never exceed the peer's active_connection_id_limit;
-   RETIRE_CONNECTION_ID is only sent for sequence numbers the peer issued. *)
+   RETIRE_CONNECTION_ID is only sent for sequence numbers the peer issued, and never inside a datagram addressed with
+   the id being retired; a datagram addressed to an id the endpoint issued and the peer has not retired is routed to
+   the connection (never dropped as "unknown destination connection id") while the connection exists. *)
 EXTENDS Naturals, FiniteSets, Sequences, TLC
 Ep == {"c", "s"}
 VARIABLES issued,        \* [Ep -> function seq -> [cid, token]]  ids announced with NEW_CONNECTION_ID (seq 0 is the handshake id)
           retiredByPeer, \* [Ep -> set of seq]
           maxRpt,        \* [Ep -> Nat]
           limit,         \* [Ep -> Nat]  active_connection_id_limit of the PEER
-          peerIssued     \* [Ep -> set of seq] sequence numbers the endpoint has seen the peer issue
-cvars == <<issued, retiredByPeer, maxRpt, limit, peerIssued>>
+          peerIssued,    \* [Ep -> set of seq] sequence numbers the endpoint has seen the peer issue
+          seq0,          \* [Ep -> id or None] the id of sequence number 0 (source connection id of the handshake packets)
+          retiring,      \* [Ep -> set of seq] RETIRE frames written since the endpoint's last datagram was closed
+          outq,          \* [Ep -> sequence of sets of seq] datagrams handed to the socket and not yet seen on the network
+          lastRx,        \* [Ep -> id or None] destination id of the datagram the endpoint received last
+          gone           \* [Ep -> BOOLEAN] the connection has ended at this endpoint
+cvars == <<issued, retiredByPeer, maxRpt, limit, peerIssued, seq0, retiring, outq, lastRx, gone>>
+None == 0 - 1
 CFresh == [ issued |-> [e \in Ep |-> <<>>], retiredByPeer |-> [e \in Ep |-> {}], maxRpt |-> [e \in Ep |-> 0],
-            limit |-> [e \in Ep |-> 2], peerIssued |-> [e \in Ep |-> {0}] ]
+            limit |-> [e \in Ep |-> 2], peerIssued |-> [e \in Ep |-> {0}],
+            seq0 |-> [e \in Ep |-> None], retiring |-> [e \in Ep |-> {}], outq |-> [e \in Ep |-> <<>>], lastRx |-> [e \in Ep |-> None],
+            gone |-> [e \in Ep |-> FALSE] ]
 CInit == issued = CFresh.issued /\ retiredByPeer = CFresh.retiredByPeer /\ maxRpt = CFresh.maxRpt /\ limit = CFresh.limit /\ peerIssued = CFresh.peerIssued
+         /\ seq0 = CFresh.seq0 /\ retiring = CFresh.retiring /\ outq = CFresh.outq /\ lastRx = CFresh.lastRx /\ gone = CFresh.gone
 CReset == issued' = CFresh.issued /\ retiredByPeer' = CFresh.retiredByPeer /\ maxRpt' = CFresh.maxRpt /\ limit' = CFresh.limit /\ peerIssued' = CFresh.peerIssued
+          /\ seq0' = CFresh.seq0 /\ retiring' = CFresh.retiring /\ outq' = CFresh.outq /\ lastRx' = CFresh.lastRx /\ gone' = CFresh.gone
 Put(f, k, v) == [x \in DOMAIN f \cup {k} |-> IF x = k THEN v ELSE f[x]]
 Max2(a, b) == IF a >= b THEN a ELSE b
 SetMax0(S) == IF S = {} THEN 0 ELSE CHOOSE x \in S : \A y \in S : x >= y
 
-PeerLimit(e, n) == limit' = [limit EXCEPT ![e] = n] /\ UNCHANGED <<issued, retiredByPeer, maxRpt, peerIssued>>
+wvars == <<seq0, retiring, outq, lastRx, gone>>
+PeerLimit(e, n) == limit' = [limit EXCEPT ![e] = n] /\ UNCHANGED <<issued, retiredByPeer, maxRpt, peerIssued, wvars>>
 ActiveCount(e, iss, rpt) == Cardinality({s \in (DOMAIN iss) \cup {0} : s >= rpt /\ s \notin retiredByPeer[e]})
 TxNewConnectionId(e, seq, rpt, cid, token) ==
   /\ rpt <= seq                                                       \* never asks to retire ids beyond the one it issues
@@ -33,8 +46,32 @@ TxNewConnectionId(e, seq, rpt, cid, token) ==
      /\ ActiveCount(e, iss, r) <= limit[e]                            \* never more unretired ids than the peer allows
      /\ issued' = [issued EXCEPT ![e] = iss]
      /\ maxRpt' = [maxRpt EXCEPT ![e] = r]
-  /\ UNCHANGED <<retiredByPeer, limit, peerIssued>>
-RxRetire(e, seq) == retiredByPeer' = [retiredByPeer EXCEPT ![e] = @ \cup {seq}] /\ UNCHANGED <<issued, maxRpt, limit, peerIssued>>
-RxNewConnectionId(e, seq) == peerIssued' = [peerIssued EXCEPT ![e] = @ \cup {seq}] /\ UNCHANGED <<issued, retiredByPeer, maxRpt, limit>>
-TxRetire(e, seq) == seq \in peerIssued[e] /\ UNCHANGED cvars          \* only ids the peer actually issued
+  /\ UNCHANGED <<retiredByPeer, limit, peerIssued, wvars>>
+RxRetire(e, seq) == retiredByPeer' = [retiredByPeer EXCEPT ![e] = @ \cup {seq}] /\ UNCHANGED <<issued, maxRpt, limit, peerIssued, wvars>>
+RxNewConnectionId(e, seq) == peerIssued' = [peerIssued EXCEPT ![e] = @ \cup {seq}] /\ UNCHANGED <<issued, retiredByPeer, maxRpt, limit, wvars>>
+TxRetire(e, seq) == /\ seq \in peerIssued[e]                        \* only ids the peer actually issued
+                    /\ retiring' = [retiring EXCEPT ![e] = @ \cup {seq}]
+                    /\ UNCHANGED <<issued, retiredByPeer, maxRpt, limit, peerIssued, seq0, outq, lastRx, gone>>
+\* --- the wire side ---------------------------------------------------------------------------------------------
+Other(e) == IF e = "c" THEN "s" ELSE "c"
+\* the id (hash) the endpoint p issued under sequence number s, None if unknown
+IdOf(p, s) == IF s = 0 THEN seq0[p] ELSE IF s \in DOMAIN issued[p] THEN issued[p][s].cid ELSE None
+\* ids of e the peer may still address: issued, and no RETIRE_CONNECTION_ID for them has been processed by e
+Routable(e) == {IdOf(e, s) : s \in {x \in (DOMAIN issued[e]) \cup {0} : x \notin retiredByPeer[e]}} \ {None}
+\* the endpoint closes a datagram: the RETIRE frames written since the last one travel in it
+DatagramClosed(e) == outq' = [outq EXCEPT ![e] = Append(@, retiring[e])] /\ retiring' = [retiring EXCEPT ![e] = {}]
+                     /\ UNCHANGED <<issued, retiredByPeer, maxRpt, limit, peerIssued, seq0, lastRx, gone>>
+\* the network shows the oldest datagram of e: it is not addressed with an id it asks the peer to retire
+DatagramSeen(e, dcid, scid) ==
+  /\ IF Len(outq[e]) = 0 THEN outq' = outq
+     ELSE /\ \A s \in Head(outq[e]) : IdOf(Other(e), s) = None \/ IdOf(Other(e), s) # dcid
+          /\ outq' = [outq EXCEPT ![e] = Tail(@)]
+  /\ seq0' = (IF seq0[e] = None /\ scid # None THEN [seq0 EXCEPT ![e] = scid] ELSE seq0)
+  /\ UNCHANGED <<issued, retiredByPeer, maxRpt, limit, peerIssued, retiring, lastRx, gone>>
+DatagramReceived(e, dcid) == lastRx' = [lastRx EXCEPT ![e] = dcid]
+                            /\ UNCHANGED <<issued, retiredByPeer, maxRpt, limit, peerIssued, seq0, retiring, outq, gone>>
+\* the endpoint found no connection for the datagram it received last
+UnknownDestination(e) == /\ gone[e] \/ lastRx[e] = None \/ lastRx[e] \notin Routable(e)
+                         /\ UNCHANGED cvars
+ConnectionGone(e) == gone' = [gone EXCEPT ![e] = TRUE] /\ UNCHANGED <<issued, retiredByPeer, maxRpt, limit, peerIssued, seq0, retiring, outq, lastRx>>
 =============================================================================
